@@ -13,6 +13,11 @@ case (PlacementSpec) =
     "depth": 1|2|3   the placement lives in the top entity (1) or in a sub-entity `Core` instantiated by 1-2 wrappers
 
 Sites are rendered in order (cohdl traces contexts in definition order):
+    raw_seq / raw_conc   contexts made with the core API cohdl.sequential_context / cohdl.concurrent_context (no std
+            wrapper: no implicit cohdl.reset_pushed(), explicit sensitivity list and rising_edge test)
+    write kind "wp": push assignment `x ^= v` (sequential contexts only; the object then gets a default value)
+    always_inline   sequential context whose `with cohdl.always:` block instantiates a sub-entity with the site's
+            objects as actuals (`body` = statements of the process part of the same context)
     seq     @std.sequential(std.Clock(clk)) context
     conc    @std.concurrent context
     always  `with cohdl.always:` block inside its own sequential context (emitted as concurrent statements next to the
@@ -112,7 +117,8 @@ def _useless(case):
     for s in case["sites"]:
         for o, rw, acc in list(s.get("body", [])) + list(s["acts"]):
             if case["objs"][o]["k"] == "tmp":
-                if s["k"] == "inst" or s["k"].startswith("dup_") or (s["k"] == "inline" and "w" in rw):
+                if s["k"] == "inst" or s["k"].startswith("dup_") or (s["k"] in ("inline", "always_inline") and "w" in rw
+                                                                        and [o, rw, acc] in s["acts"]):
                     return True
                 if o not in first:
                     first[o] = rw
@@ -136,6 +142,8 @@ def plan(tier):
     shards.append({"kind": "enum", "name": "inst2out", "space": "inst2out"})
     shards.append({"kind": "enum", "name": "deep", "space": "deep"})
     shards.append({"kind": "enum", "name": "inlvhdl", "space": "inlvhdl"})
+    shards.append({"kind": "enum", "name": "push", "space": "push"})
+    shards.append({"kind": "enum", "name": "tmpinst", "space": "tmpinst"})
     for i in range(nh):
         shards.append({"kind": "hyp", "name": f"place{i}", "examples": per})
     return shards
@@ -158,6 +166,44 @@ def _deep_cases():
                         b = {"k": "inline", "acts": [[0, "w", accs[1]]]}
                         for sites in ([a, b], [b, a]):
                             yield {"objs": [{"k": ok}], "sites": sites, "depth": depth}
+
+
+def _push_cases():
+    """a push assignment (`^=`) that is the only write of its context - in particular in a raw
+    cohdl.sequential_context, which has no implicit reset_pushed() - against a second driver elsewhere"""
+    for k1 in ("raw_seq", "seq"):
+        for ok in ("sig", "out"):
+            for acc in (["whole"], ["slice", 1, 0]):
+                acc2 = ["whole"] if acc[0] == "whole" else ["slice", 3, 2]
+                a = {"k": k1, "acts": [[0, "wp", acc]]}
+                for k2, rw2 in (("raw_seq", "wp"), ("raw_seq", "w"), ("seq", "w"), ("seq", "wp"), ("conc", "w"), ("raw_conc", "w")):
+                    b = {"k": k2, "acts": [[0, rw2, acc2]]}
+                    yield {"objs": [{"k": ok}], "sites": [a, b]}
+                    yield {"objs": [{"k": ok}], "sites": [b, a]}
+                for k2 in ("conc", "raw_conc", "raw_seq"):
+                    yield {"objs": [{"k": ok}], "sites": [a, {"k": k2, "acts": [[0, "r", acc2]]}]}
+
+
+def _tmpinst_cases():
+    """an intermediate value of a sequential context as input actual of an inline instance: in a later concurrent
+    context (shared: must reject) or in the always-block of the same context; plus signals through always_inline"""
+    for ck in ("seq", "raw_seq"):
+        for extra_read in (False, True):
+            a = {"k": ck, "acts": [[0, "rw" if extra_read else "w", ["whole"]]]}
+            yield {"objs": [{"k": "tmp"}, {"k": "sig"}], "sites": [a, {"k": "inline", "acts": [[0, "r", ["whole"]], [1, "w", ["whole"]]]}]}
+            yield {"objs": [{"k": "tmp"}, {"k": "out"}], "sites": [a, {"k": "inline", "acts": [[0, "r", ["whole"]], [1, "w", ["whole"]]]},
+                                                                    {"k": "conc", "acts": [[1, "r", ["whole"]]]}]}
+            yield {"objs": [{"k": "tmp"}], "sites": [a, {"k": "always_inline", "acts": [[0, "r", ["whole"]]]}]}
+    for ok in ("sig", "out"):
+        for wbody in (None, "w", "r"):
+            for second in (None, ("conc", "r"), ("conc", "w")):
+                s0 = {"k": "always_inline", "acts": [[0, "r", ["whole"]], [1, "w", ["whole"]]], "body": [[0, "w", ["whole"]]]}
+                if wbody:
+                    s0["body"].append([1, wbody, ["whole"]])
+                sites = [s0] + ([{"k": second[0], "acts": [[1, second[1], ["whole"]]]}] if second else [{"k": "conc", "acts": []}])
+                yield {"objs": [{"k": "tmp"}, {"k": ok}], "sites": sites}
+                s1 = {"k": "always_inline", "acts": [[0, "r", ["whole"]], [1, "w", ["whole"]]], "body": ([[1, wbody, ["whole"]]] if wbody else [])}
+                yield {"objs": [{"k": "in"}, {"k": ok}], "sites": [s1] + sites[1:]}
 
 
 def _inlvhdl_cases():
@@ -203,6 +249,12 @@ def enumerate(shard):  # noqa: A001
     if shard.get("space") == "inlvhdl":
         yield from _inlvhdl_cases()
         return
+    if shard.get("space") == "push":
+        yield from _push_cases()
+        return
+    if shard.get("space") == "tmpinst":
+        yield from _tmpinst_cases()
+        return
     stride = int(shard.get("stride", 1))
     lo, hi = shard["lo"], shard["hi"]
     for k, item in builtins.enumerate(itertools.islice(_enum_space(), 0, None, stride)):
@@ -231,14 +283,16 @@ def _cases(draw):
     sites = []
     for _ in range(ns):
         k = draw(st.sampled_from(["seq", "seq", "conc", "conc", "always", "always", "inst", "inst", "inline", "inline", "block",
-                                  "dup_seq", "dup_seq", "dup_conc"]))
+                                  "dup_seq", "dup_seq", "dup_conc", "raw_seq", "raw_seq", "raw_conc", "always_inline"]))
         acts = []
         for oi in range(no):
             rw = draw(st.sampled_from([None, "r", "r", "w", "w", "rw", "wi0", "wi1", "wi2"]))
             if rw is None:
                 continue
-            if rw.startswith("wi") and (k in ("inst", "inline") or objs[oi]["k"] == "tmp"):
+            if rw.startswith("wi") and (k in ("inst", "inline", "always_inline") or objs[oi]["k"] == "tmp"):
                 rw = "w"
+            if rw == "w" and k in ("seq", "raw_seq", "dup_seq") and objs[oi]["k"] in ("sig", "out") and draw(st.integers(0, 2)) == 0:
+                rw = "wp"
             acc = ["whole"] if objs[oi]["k"] == "tmp" else draw(_ACC)
             acts.append([oi, rw, acc])
         s = {"k": k, "acts": acts}
@@ -249,7 +303,7 @@ def _cases(draw):
             cand = [oi for oi in range(no) if objs[oi]["k"] != "tmp"]
             if cand:
                 s["extra"] = [[draw(st.sampled_from(cand)), draw(_ACC)] for _ in range(draw(st.integers(1, 2)))]
-        if k == "always" and draw(st.booleans()):
+        if k in ("always", "always_inline") and draw(st.booleans()):
             body = []
             for oi in range(no):
                 rw = draw(st.sampled_from([None, None, "r", "w"]))
@@ -297,6 +351,7 @@ def _src(acc):
 
 def render(case):
     objs, sites = case["objs"], case["sites"]
+    pushed = {oi for s_ in sites for oi, rw, _ in list(s_["acts"]) + list(s_.get("body", [])) if rw == "wp"}
     L = []
     w = L.append
     w("from __future__ import annotations")
@@ -322,7 +377,7 @@ def render(case):
 
     # sub-entities for inst / inline sites
     for si, s in builtins.enumerate(sites):
-        if s["k"] not in ("inst", "inline"):
+        if s["k"] not in ("inst", "inline", "always_inline"):
             continue
         w(f"class Sub{si}(Entity):")
         n = 0
@@ -359,14 +414,14 @@ def render(case):
     w("    sel = Port.input(Unsigned[2])")
     for oi, o in builtins.enumerate(objs):
         if o["k"] == "out":
-            w(f"    pout{oi} = Port.output(BitVector[4])")
+            w(f"    pout{oi} = Port.output(BitVector[4]{', default=Null' if oi in pushed else ''})")
         elif o["k"] == "in":
             w(f"    pin{oi} = Port.input(BitVector[4])")
     w("")
     w("    def architecture(self):")
     for oi, o in builtins.enumerate(objs):
         if o["k"] == "sig":
-            w(f"        X{oi} = Signal[BitVector[4]]()")
+            w(f"        X{oi} = Signal[BitVector[4]]({'Null' if oi in pushed else ''})")
         elif o["k"] == "var":
             w(f"        X{oi} = Variable[BitVector[4]]()")
         elif o["k"] == "tmp":
@@ -375,7 +430,7 @@ def render(case):
     for si, s in builtins.enumerate(sites):
         for part, al in (("a", s["acts"]), ("b", s.get("body", []))):
             for oi, rw, acc in al:
-                if ("r" in rw or objs[oi]["k"] == "tmp") and s["k"] not in ("inst", "inline"):
+                if ("r" in rw or objs[oi]["k"] == "tmp") and not (s["k"] in ("inst", "inline") or (s["k"] == "always_inline" and part == "a")):
                     if s["k"].startswith("dup_"):  # one private sink per copy, handed out at trace time
                         w(f"        rd_{si}{part}{oi} = [Signal[{_acc_ty(acc)}]() for _ in range({int(s.get('n', 2))})]")
                     else:
@@ -412,6 +467,8 @@ def render(case):
                     out.append(f"st_{si}{part}{oi}_{lvl} = {text}")
                     text = "f\"{cohdl.vhdl:{" + f"st_{si}{part}{oi}_{lvl}" + "}}\""
                 out.append(text)
+            elif rw == "wp" and k != "var":
+                out.append(f"{tgt}.push = {_src(acc)}" if acc[0] == "whole" else f"{tgt} ^= {_src(acc)}")
             elif "w" in rw:
                 if k == "var":
                     out.append(f"{tgt}.value = {_src(acc)}" if acc[0] == "whole" else f"{tgt} @= {_src(acc)}")
@@ -456,6 +513,23 @@ def render(case):
             w("        @std.concurrent")
             w(f"        def site{si}():")
             w(inst(si, s, " " * 12) if (s["acts"] or s.get("extra")) else " " * 12 + "pass")
+        elif k == "raw_seq":
+            w(f"        def site{si}():")
+            w("            cohdl.sensitivity.list(self.clk)")
+            w("            if cohdl.rising_edge(self.clk):")
+            L.extend(stmts(si, "a", s["acts"], " " * 16))
+            w(f"        cohdl.sequential_context(site{si})")
+        elif k == "raw_conc":
+            w(f"        def site{si}():")
+            L.extend(stmts(si, "a", s["acts"], " " * 12))
+            w(f"        cohdl.concurrent_context(site{si})")
+        elif k == "always_inline":
+            w("        @std.sequential(std.Clock(self.clk))")
+            w(f"        def site{si}():")
+            if s.get("body"):
+                L.extend(stmts(si, "b", s["body"], " " * 12))
+            w("            with cohdl.always:")
+            w(inst(si, s, " " * 16) if (s["acts"] or s.get("extra")) else " " * 16 + "pass")
         elif k in ("dup_seq", "dup_conc"):
             deco = "@std.sequential(std.Clock(self.clk))" if k == "dup_seq" else "@std.concurrent"
             n = int(s.get("n", 2))
@@ -495,7 +569,7 @@ def render(case):
         w("    sel = Port.input(Unsigned[2])")
         for oi, o in builtins.enumerate(objs):
             if o["k"] == "out":
-                w(f"    pout{oi} = Port.output(BitVector[4])")
+                w(f"    pout{oi} = Port.output(BitVector[4]{', default=Null' if oi in pushed else ''})")
             elif o["k"] == "in":
                 w(f"    pin{oi} = Port.input(BitVector[4])")
         w("    def architecture(self):")
@@ -541,13 +615,16 @@ def expectation(case):
         seen_w, seen_u = set(), set()
         copies = int(s.get("n", 2)) if s["k"].startswith("dup_") else 1  # every copy is a context of its own
         extra = [[oi, "w", acc] for oi, acc in s.get("extra", [])] if s["k"] in ("inst", "inline") else []
-        for oi, rw, acc in list(s["acts"]) + list(s.get("body", [])) + extra:
-            if oi not in seen_u:
-                users[oi].extend([(si, acc[0])] * copies)
-                seen_u.add(oi)
-            if "w" in rw and oi not in seen_w:
-                writers[oi].extend([(si, acc[0])] * copies)
-                seen_w.add(oi)
+        for part in (list(s.get("body", [])), list(s["acts"]) + extra):
+            if s["k"] == "always_inline":
+                seen_w = set()  # the process body (a context) and the instance output are two drivers
+            for oi, rw, acc in part:
+                if oi not in seen_u:
+                    users[oi].extend([(si, acc[0])] * copies)
+                    seen_u.add(oi)
+                if "w" in rw and oi not in seen_w:
+                    writers[oi].extend([(si, acc[0])] * copies)
+                    seen_w.add(oi)
     reasons = []
     # several output ports of ONE instance on one root: every output is a driver of its own; overlapping actuals must
     # be rejected, disjoint slices/elements are the control (no expectation: cohdl may reject them at root level)
@@ -666,6 +743,10 @@ def check(case):
             # the name is declared, but as a variable inside a process, and is referenced outside that process
             out.add({"kind": "text", "rule": "variable-outside-process", "var": "process", "spec": spec_var},
                     f"{e!r}  ({_m.group(1)} is a variable of process {proc_vars[_m.group(1).lower()]})\n" + _excerpt(vhdl))
+        elif e.rule == "S-type" and e.extra.get("where") == "target-class":
+            # an object declared as a signal but assigned with `:=` (or the reverse): a process-local value that the
+            # text also uses outside its process
+            out.add({"kind": "text", "rule": "variable-signal-class-confusion", "found": e.extra.get("found")}, f"{e!r}\n" + _excerpt(vhdl))
         else:
             other += 1
     if other:
